@@ -104,6 +104,41 @@ class InheritingRecState(RecState):
         return np.array([self.acc, float(self.count), self.last_ping, 1.0])
 
 
+from tradingenv.features import Feature
+import gymnasium
+
+
+class RollingFeature(Feature):
+    """A feature holding the last 3 mid prices in ONE array that it updates in place and hands out from parse()."""
+
+    def __init__(self, save=True):
+        super().__init__(space=gymnasium.spaces.Box(-1e12, 1e12, (3,), float), name="rolling", save=save)
+        self.buf = np.zeros(3)
+
+    def process_EventNBBO(self, event):
+        if not isinstance(event.contract, (Rate, Cash)):
+            self.buf[:-1] = self.buf[1:]
+            self.buf[-1] = 0.5 * (event.bid_price + event.ask_price)
+
+    def parse(self):
+        return self.buf
+
+
+class PeakFeature(Feature):
+    """A feature that observes NO event: it tracks the running peak of the account value inside parse()."""
+
+    def __init__(self):
+        super().__init__(space=gymnasium.spaces.Box(-1e12, 1e12, (2,), float), name="peak")
+        self.peak = 0.0
+        self.calls = 0
+
+    def parse(self):
+        nlv = self.broker.net_liquidation_value(raise_if_broke=False) if self.broker is not None else 0.0
+        self.peak = max(self.peak, float(nlv))
+        self.calls += 1
+        return np.array([float(nlv) - self.peak, float(self.calls)])
+
+
 class RecWindowState(State):
     """The library's windowed State (fed by EventNewObservation rows) plus the recorder's log."""
 
@@ -124,6 +159,10 @@ def make_state(case):
         return RecState()
     if st_[0] == "rec-inherited":
         return InheritingRecState()
+    if st_[0] == "features":
+        # a state given as a list of features (the documented shortcut): one saved or unsaved rolling feature, one
+        # feature without event callbacks
+        return [RollingFeature(save=bool(st_[1])), PeakFeature()]
     return RecWindowState(st_[1], st_[2], st_[3])
 
 
@@ -461,7 +500,9 @@ def run_episode(env, actions, fold="training-set", seed=None, max_steps=None, wi
     if seed is not None:
         np.random.seed(seed)
     trace = []
+    kept = []             # (call index, the returned observation object, its value when returned)
     obs = env.reset(fold)
+    kept.append((0, obs, obs_key(obs)))
     trace.append(snapshot(env, obs, None, env._done, {}))
     if with_log:
         trace[-1]["log"] = log_key(env.state)
@@ -480,12 +521,18 @@ def run_episode(env, actions, fold="training-set", seed=None, max_steps=None, wi
             ended = "exception:" + type(exc).__name__
             break
         snap = snapshot(env, obs, reward, done, info)
+        kept.append((len(trace), obs, snap["obs"]))
         if with_log:
             snap["log"] = log_key(env.state)[mark:]
         trace.append(snap)
         if done:
             ended = "done"
             break
+    for (idx, ob, key) in kept:
+        if obs_key(ob) != key:
+            # an output that was already returned changed when later data arrived
+            trace[idx]["obs"] = {"returned": key, "later": obs_key(ob)}
+            trace[idx]["mutated_after_return"] = True
     return trace, ended
 
 
